@@ -522,6 +522,11 @@ struct Visitor : RecursiveASTVisitor<Visitor> {
     O["static_member"] = V->isStaticDataMember();
     O["tls"] = V->getTLSKind() != VarDecl::TLS_None;
     if (V->isStaticLocal()) if (auto *F = dyn_cast<FunctionDecl>(V->getDeclContext())) O["func"] = D.qname(F);
+    // the value of a constant of integral type (named protocol numbers, limits): rules compare values, not spellings
+    if ((V->getType().isConstQualified() || V->isConstexpr()) && V->getType()->isIntegralOrEnumerationType() && V->hasInit() && !V->getInit()->isValueDependent()) {
+      Expr::EvalResult R;
+      if (V->getInit()->EvaluateAsInt(R, V->getASTContext())) O["value"] = (int64_t)R.Val.getInt().getExtValue();
+    }
     Globals.push_back(std::move(O));
     return true;
   }
